@@ -303,6 +303,13 @@ let () = reg "demflat" (fun args ->
   let (o2, off2) = exec (unroll m) N0 in
   show_out o1 ^ " # " ^ decimal_of_n off1 ^ " # " ^ (if o1 = o2 && off1 = off2 then "same" else "DIFFERENT"))
 
+(* ---------------- 64x64 transpose (Tr.v) ---------------- *)
+(* transpose64 w0 w1 ... w63 (hex words) -> transposed words by the model of inplace_transpose_64x64 *)
+let () = reg "transpose64" (fun args ->
+  let m = List.map n_of_hex args in
+  let r = transpose64 m in
+  Stdlib.String.concat " " (List.map (fun w -> let h = hex_of_n w in Stdlib.String.make (16 - Stdlib.String.length h) '0' ^ h) r))
+
 let () =
   (try
      while true do
